@@ -310,9 +310,9 @@ def check_file(acc, import_csv, workdir, tag, grid, text, options, effective_ski
   # ---- mismatch: classify by mechanism
   mechs = None
   for cols, m in models:
-    if got == cols:
+    # several defect models can predict the same output: attribute it to the smallest set of mechanisms
+    if got == cols and (mechs is None or len(m) < len(mechs)):
       mechs = set(m)
-      break
   exp = accepted[0]
   detail = 'expected %d columns x %d rows %s; got %d columns x %s rows %s' % (
       len(exp), len(exp[0][1]) if exp else 0, describe(exp), len(got), len(got[0][1]) if got else 0, describe(got))
